@@ -161,6 +161,7 @@ func (h *hgen) newTx(forBlock bool) int {
 		d.set("node", pick(r, keyToks))
 	case w < 56:
 		d.ty = int(common2.RegisterCR)
+		d.pver = r.Pick(0, 0, 2) // CHECKSIG code in the payload, or schnorr (payload version 2: code in the program)
 		d.set("crpk", pick(r, keyToks))
 		d.set("cid", pick(r, cidToks))
 		d.set("nick", pick(r, nickToks))
